@@ -117,6 +117,7 @@ partial def loopIO (hin : IO.FS.Stream) (hout : IO.FS.Stream) : IO Unit := do
   | "R" :: rest => hout.putStrLn (← Session.readerSession rest)
   | "HD" :: rest => hout.putStrLn (Session.hdSession rest)
   | "HM" :: rest => hout.putStrLn (Session.hmSession rest)
+  | "PL" :: rest => hout.putStrLn (Session.plSession rest)
   | "CR" :: rest => hout.putStrLn (← Session.crSession rest)
   | _ => hout.putStrLn (step line)
   loopIO hin hout
